@@ -1,0 +1,36 @@
+//go:build verif
+
+// Contracts for range scans (package storage). Comment-only file, read by /verif/govc.
+//
+// Every scan in the code base has the shape IterateRange(start, Rangefix(start), true, fn): "all keys that begin with
+// start". The scan itself (IAVL range iteration over the committed tree, values read back through State.Get) is assumed;
+// what is checked at every call site that is under contract is the discipline: the end of the range is Rangefix of the
+// SAME start key (C09.prefix-scan). The iterators the stores build on top are then verified, not assumed: every element
+// they hand to their callback satisfies their `yields` clauses, and they stop early only when the callback says so.
+
+package storage
+
+// rangefixOf(s): what Rangefix computes; scanKey(k, start): k is one of the keys the scan that starts at `start` visits
+//@ ghost func rangefixOf(s string) string
+//@ ghost func scanKey(k string, start string) bool
+
+// Rangefix strips a trailing "_" and appends "~" (string indexing; a function of its argument) — assumed
+//@ assume func Rangefix
+//@   modifies nothing
+//@   ensures str(result) == rangefixOf(prefix)
+
+// The keys come from the committed tree, the values are read back through State.Get; a key deleted in the overlay reads
+// back as the tombstone and is skipped (since the fix that added the check; before it the tombstone was handed to the
+// callback and the store iterators, which stop on a value that does not decode, lost every later record). Nothing that
+// exists only in the overlay is visited.
+//@ assume func (*State).IterateRange
+//@   iterator
+//@   requires s != nil
+//@   requires str(end) == rangefixOf(str(start))                                                       // C09.prefix-scan
+//@   modifies exhausted(s.cache), exhausted(s.txSession)
+//@   yields scanKey(str(y0), str(start))
+//@   yields !exhausted(s.cache) && vHas(s)[str(y0)] ==> y1 == vVal(s)[str(y0)]
+// a committed key that the view says is absent was deleted in the overlay: what Get reads back for it is the tombstone,
+// and tombstones are skipped
+//@   yields !exhausted(s.cache) && !vHas(s)[str(y0)] ==> tomb(y1)
+//@   yields !tomb(y1)
